@@ -333,6 +333,14 @@ class ConditionLike:
             pathlib.Path: pathlib.Path,
         }
         ALL_PRE_PROCS = list(PRE_PROC_LOOKUP.keys())
+        # Names of the condition callables (lower-cased, since the specification key is
+        # lower-cased); only these may be looked-up on the condition class:
+        ALL_CALLABLES = {
+            name.lower(): name
+            for callables_cls in (GeneralCallables, MapCallables)
+            for name, obj in vars(callables_cls).items()
+            if isinstance(obj, classmethod)
+        }
 
         if len(spec) > 1:
             raise MalformedConditionLikeSpec(
@@ -383,7 +391,9 @@ class ConditionLike:
             if spec_key_split_len == 3:
                 try:
                     pre_proc_str = spec_key_split[1]
-                    pre_proc_str = PRE_PROC_LOOKUP.get(pre_proc_str, pre_proc_str)
+                    if pre_proc_str not in PRE_PROC_LOOKUP:
+                        raise AttributeError(pre_proc_str)
+                    pre_proc_str = PRE_PROC_LOOKUP[pre_proc_str]
                     if pre_proc_str == "dtype":
                         try:
                             # convert strings to types
@@ -435,7 +445,9 @@ class ConditionLike:
                     )
 
             try:
-                cond_method = getattr(cls, cond_call_str)
+                if cond_call_str not in ALL_CALLABLES:
+                    raise AttributeError(cond_call_str)
+                cond_method = getattr(cls, ALL_CALLABLES[cond_call_str])
             except AttributeError:
                 msg = (
                     f'Condition callable "{cond_call_str}" is not known or not '
